@@ -17,17 +17,64 @@ from harness import session as S
 from harness import ws
 from harness.core import run_forked, setup_repo_imports
 
-EDITACTS = ["access", "call_other", "set_efth", "set_dir", "set_freq", "call_unknown", "other_shape"]
-OBS_OPS = ["hs", "dm", "dspr", "tp", "oned", "smooth33", "rotate45", "ptm3", "dd", "stats_dict", "tm02", "dp", "rmse_partial"]
+EDITACTS = ["access", "call_other", "set_efth", "set_dir", "set_freq", "call_unknown", "other_shape", "reader_calls"]
+OBS_OPS = ["hs", "dm", "dspr", "tp", "oned", "smooth33", "rotate45", "ptm3", "dd", "stats_dict", "tm02", "dp", "rmse_partial", "meta"]
+# sample files of the repository read as "reader calls on other objects": one- and two-dimensional instrument files, model output
+READER_SAMPLES = [("read_triaxys", "triaxys.NONDIRSPEC"), ("read_triaxys", "triaxys.DIRSPEC"), ("read_swan", "swanfile.spec"),
+                  ("read_octopus", "octopusfile.oct"), ("read_json", "jsonfile.json"), ("read_funwave", "funwavefile.txt"),
+                  ("read_spotter", "spotter_20180214.json"), ("read_ww3_station", "ww3station.spec"), ("read_ww3", "ww3file.nc"),
+                  ("read_era5", "era5file.nc"), ("read_swan", "swanhot.spec")]
 
 
-def mech_cfg(binding, memo, steps):
-    return ws.write_cfg("mech_%s_%s_%d.cfg" % (binding, memo, steps),
-                        "SPECIFICATION Spec\nCONSTANTS BINDING = \"%s\"\n DDMEMO = %s\n NVER = 2\n NGRID = 2\n MAXSTEPS = %d\n"
-                        "INVARIANT Fresh\nINVARIANT BufferShapeConsistent\n" % (binding, "TRUE" if memo else "FALSE", steps))
+def reader_calls():
+    """every reader that runs offline, on the repository's own samples; returns {reader/file: metadata of what it returned}."""
+    import wavespectra
+    from harness.core import REPO
+    out = {}
+    for fn, name in READER_SAMPLES:
+        try:
+            d = getattr(wavespectra, fn)(REPO + "/tests/sample_files/" + name)
+            out["%s(%s)" % (fn, name)] = meta_of(d)
+        except Exception as ex:  # noqa
+            out["%s(%s)" % (fn, name)] = "raised " + type(ex).__name__
+    return out
+
+
+def meta_of(x):
+    """name, attributes of the object, of its variables and of its coordinates - the part of a result that is not numbers."""
+    import xarray as xr
+    norm = lambda a: sorted((str(k), repr(v)) for k, v in dict(a).items())  # noqa
+    if isinstance(x, xr.Dataset):
+        return {"vars": {k: norm(x[k].attrs) for k in sorted(x.variables)}, "dims": sorted(x.dims)}
+    return {"name": str(x.name), "attrs": norm(x.attrs), "coords": {k: norm(x[k].attrs) for k in sorted(x.coords)}, "dims": list(x.dims)}
+
+
+def meta_observe(obj):
+    """metadata of results that are stamped from the library's attribute table, on this object and on a file read now."""
+    import xarray as xr
+    from wavespectra import read_swan, read_triaxys
+    from wavespectra.construct.frequency import jonswap
+    from harness.core import REPO
+    da = obj["efth"] if isinstance(obj, xr.Dataset) else obj
+    s = obj.spec
+    out = {"oned": meta_of(s.oned()), "ptm3": meta_of(s.partition.ptm3(parts=2)), "hs": meta_of(s.hs()), "tp": meta_of(s.tp()),
+           "stats": meta_of(s.stats(["hs"])), "split": meta_of(s.split(fmin=0.08, fmax=0.3)), "smooth": meta_of(s.smooth()),
+           "bbox": meta_of(s.partition.bbox([dict(fmin=0.04, fmax=0.16)])), "fit_jonswap": meta_of(da.isel(time=0).spec.fit_jonswap()),
+           "jonswap": meta_of(jonswap(freq=da.freq, fp=0.1, hs=2.0)),
+           "read_swan": meta_of(read_swan(REPO + "/tests/sample_files/swanfile.spec")),
+           "read_triaxys_2d": meta_of(read_triaxys(REPO + "/tests/sample_files/triaxys.DIRSPEC"))}
+    return out
+
+
+def mech_cfg(binding, memo, steps, attrtab="copy"):
+    return ws.write_cfg("mech_%s_%s_%s_%d.cfg" % (binding, memo, attrtab, steps),
+                        "SPECIFICATION Spec\nCONSTANTS BINDING = \"%s\"\n DDMEMO = %s\n NVER = 2\n NGRID = 2\n MAXSTEPS = %d\n ATTRTAB = \"%s\"\n"
+                        "INVARIANT Fresh\nINVARIANT BufferShapeConsistent\n" % (binding, "TRUE" if memo else "FALSE", steps, attrtab))
 
 
 def observe(obj, op):
+    if op == "meta":
+        return meta_observe(obj)
     if op == "rmse_partial":
         # a statistic of two spectra whose time windows overlap only partly (rmse documents that coordinates are broadcast / aligned):
         # how xarray aligns them is process-wide state a library call must not have changed
@@ -71,6 +118,7 @@ def fresh_table():
                         if kind == "ds":
                             obj = obj.to_dataset(name="efth")
                         out[(kind, ver, grid, fg, op)] = observe(obj, op)
+    out[("readers",)] = reader_calls()
     return out
 
 
@@ -191,12 +239,13 @@ def run(ctx):
         ctx.violation({"where": "spec", "invariant": inv}, "Mechanisms.tla: %s violated for the current mechanisms" % inv, r.cex[:4000])
     # regression configurations: the pre-repair mechanisms must still be seen as stale by TLC
     sens = {}
-    for binding, memo in (("snapshot", False), ("dynamic", True)):
-        rr = ctx.tlc("Mechanisms", mech_cfg(binding, memo, 4), workers=4, expect_ok=False, label="regression %s/memo=%s (expected: Fresh violated)" % (binding, memo))
-        sens["%s/memo=%s" % (binding, memo)] = "Fresh" in rr.violated
+    for binding, memo, tab in (("snapshot", False, "copy"), ("dynamic", True, "copy"), ("dynamic", False, "live")):
+        rr = ctx.tlc("Mechanisms", mech_cfg(binding, memo, 4, tab), workers=4, expect_ok=False,
+                     label="regression %s/memo=%s/attrtab=%s (expected: Fresh violated)" % (binding, memo, tab))
+        sens["%s/memo=%s/attrtab=%s" % (binding, memo, tab)] = "Fresh" in rr.violated
         if "Fresh" not in rr.violated:
             from harness.core import MachineryError
-            raise MachineryError("Mechanisms.tla no longer detects the %s/memo=%s staleness (vacuous model?)" % (binding, memo))
+            raise MachineryError("Mechanisms.tla no longer detects the %s/memo=%s/attrtab=%s staleness (vacuous model?)" % (binding, memo, tab))
     ctx.note("spec_sensitivity", sens)
     maxlen = 3 if ctx.quick else 4
     cfg = S.session_cfg("c18_%d" % maxlen, ["op"], [], EDITACTS, maxlen)
@@ -211,13 +260,15 @@ def run(ctx):
     ctx.note("histories_from_tlc", len(hist))
     ctx.exhaustive = True
     ctx.rule = ("TLC: all interleavings of <= %d mechanism actions; Session.tla: all histories of <= %d edit/call actions; every history x "
-                "{Dataset, DataArray} x observed operations (quick: seeded third) replayed and compared with a fresh object evaluated in a "
+                "{Dataset, DataArray} x observed operations (quick: all histories of <= 2 actions and a seeded two fifths of the longer ones, a seeded third of the operations) replayed and compared with a fresh object evaluated in a "
                 "pristine child process. distinct_nontrivial = distinct (history, kind, operation) with a non-empty history." % (steps, maxlen))
     other = xr.DataArray(np.arange(30.0).reshape(5, 6) % 7, coords={"freq": np.linspace(0.05, 0.25, 5), "dir": np.arange(0.0, 360.0, 60.0)},
                          dims=("freq", "dir"), name="efth")
     from harness.core import REPO
     sample = REPO + "/tests/sample_files/swanfile.spec"
     for acts, ver in hist:
+        if ctx.quick and len(acts) >= 3 and hash((acts, ctx.seed)) % 5 >= 2:
+            continue          # quick: every history of one or two actions, a seeded 40 % of those of three
         for kind_ in ("ds", "da"):
             obj = S.make(1, 1)
             if kind_ == "ds":
@@ -248,6 +299,16 @@ def run(ctx):
                             obj.spec.stats(["no_such_statistic"])
                         except ValueError:
                             pass
+                    elif a == "reader_calls":
+                        rc = reader_calls()
+                        ctx.case(("reader_calls", acts), True)
+                        bad = [k for k in rc if rc[k] != table[("readers",)][k]]
+                        if bad:
+                            ctx.violation({"history": [x for x, _ in acts], "op": "reader_calls", "readers": bad[:3]},
+                                          "reader calls after history %s return other metadata than in a fresh process: %s" % ([x for x, _ in acts], bad[:3]),
+                                          {"got": rc[bad[0]], "fresh": table[("readers",)][bad[0]]})
+                        else:
+                            ctx.replayed()
                     elif a == "other_shape":
                         other.spec.partition.ptm3(parts=2)
                         read_swan(sample).spec.hs()
@@ -259,6 +320,8 @@ def run(ctx):
             for op in OBS_OPS:
                 if ctx.quick and len(acts) >= 2 and hash((acts, kind_, op, ctx.seed)) % 3:
                     continue
+                if ctx.quick and op == "meta" and len(acts) >= 2 and not any(a in ("reader_calls", "other_shape", "call_unknown") for a, _ in acts):
+                    continue      # metadata is stamped from the attribute table: observed after the histories that reach the table
                 ctx.case((acts, kind_, op), bool(acts))
                 try:
                     got = observe(obj, op)
@@ -267,6 +330,15 @@ def run(ctx):
                                   "%s after history %s raised %s" % (op, list(acts), type(ex).__name__), {"err": str(ex)[:300]})
                     continue
                 exp = table[(kind_, cv, cg, cf, op)]
+                if op == "meta":
+                    bad = [k for k in exp if got.get(k) != exp[k]]
+                    if bad:
+                        ctx.violation({"history": [a for a, _ in acts], "kind": kind_, "op": "meta", "of": bad[:3]},
+                                      "metadata of %s on the %s accessor after history %s differs from a fresh object: %s vs %s" %
+                                      (bad[:3], "Dataset" if kind_ == "ds" else "DataArray", [(a, g) for a, g in acts], str(got[bad[0]])[:300], str(exp[bad[0]])[:300]))
+                    else:
+                        ctx.replayed()
+                    continue
                 d = S.circular_same(got, exp, 1e-9) if op in ("dm", "dp") else S.same(got, exp, 1e-9)
                 if d is None:
                     ctx.replayed()
